@@ -4,7 +4,7 @@ from props.loaderlib import Def, Free, Rev
 
 ID = 'C03'
 PROFILES = ['debug', 'release']
-THEOREMS = ['C03_load', 'C03_load_nonvacuous', 'C03_load_refuted_length_in_objstm', 'C03_identity_mismatch', 'C03_sections_chain']
+THEOREMS = ['C03_load', 'C03_load_nonvacuous', 'C03_load_refuted_length_in_objstm', 'C03_identity_mismatch', 'C03_sections_chain', 'C03_load_total']
 RULE = ('random documents (3..40 objects of every value kind; streams whose payloads contain endstream / startxref / %%EOF / '
         'trailer / xref text) x random layouts (xref table / xref stream / hybrid; /W widths; /Index partition or full table; '
         'no filter / Flate / Flate+PNG-Up on xref and object streams; objects in the file or in object streams; /Length direct, '
@@ -20,7 +20,7 @@ TRUSTED = ['model of the loader logic of pdf_traverse_xref.rs in coq/Model/Loade
            'subject of C02 C05 C13 C14 C06 C07, not of this property']
 ASSUMPTIONS = ['a stream read with a /Length different from its payload length does not parse',
                'only xref-stream items carry /Type /XRef, only object-stream items /Type /ObjStm; no /Encrypt in trailers',
-               'header offset + any offset written in the file < 2^64; object values nest less than 50 deep',
+               'object values nest less than 50 deep',
                'documented reading of layouts: the /Length of an xref stream is direct; /W widths are at most 4 bytes '
                '(wider fields are refused by XrefStreamP: C13)']
 CASE_TIMEOUT = 60
